@@ -42,7 +42,7 @@ func main() {
 	r.Assume("SELECT .. INTO is not generated (known finding select-into-in-loop-assigns-once); variable, parameter and column names are unique per procedure (known finding proc-param-leaks-into-later-name-resolution); ITERATE never targets a REPEAT label (it would skip the UNTIL test)")
 	r.Assume("after a failed CALL the statements executed before the failure keep their effects (each statement of a procedure is its own statement under autocommit); OUT/INOUT variables are compared only after a successful CALL")
 
-	n := r.N(700, 15000)
+	n := r.N(700, 9000)
 	r.Parallel("case", n, func(i int) { runCase(r, i) })
 	pinned(r)
 	for _, f := range []string{"while", "repeat", "loop", "leave", "iterate", "nested-call", "exit-handler", "continue-handler", "cursor-loop", "simple-case", "searched-case", "shadowing", "param-OUT", "param-INOUT"} {
@@ -68,6 +68,194 @@ func canonPlog(s *core.Sess, after int64) ([]string, int64, bool) {
 	return out, last, true
 }
 
+type callSpec struct {
+	args   []value
+	argSQL []string
+	pre    []string
+	outs   []string
+}
+
+type mismatch struct {
+	sig     string
+	what    string
+	detail  map[string]any
+	history []string
+	stop    string // non-empty: inconclusive reason
+}
+
+// checkProgram creates the procedures on a fresh engine, runs the CALLs and compares with the reference
+// interpreter. It returns the first mismatch (nil when everything agrees).
+func checkProgram(procs []*proc, src [][2]int64, calls []callSpec, stats func(w *world, outcome string, gotLog []string, call string)) *mismatch {
+	top := procs[len(procs)-1]
+	e := core.NewEng("d")
+	defer e.Close()
+	s := e.NewSess()
+	setup := []string{ddlPlog, ddlKt, ddlSrc}
+	w := &world{kt: map[int64]bool{}, procs: map[string]*proc{}, handled: map[string]int{}}
+	for _, r := range src {
+		setup = append(setup, fmt.Sprintf("INSERT INTO src VALUES (%d, %d)", r[0], r[1]))
+		w.src = append(w.src, r)
+	}
+	for _, p := range procs {
+		setup = append(setup, p.createSQL())
+		w.procs[p.name] = p
+	}
+	mm := func(sig, what string, d map[string]any, hist []string) *mismatch {
+		if d == nil {
+			d = map[string]any{}
+		}
+		d["setup"] = setup
+		return &mismatch{sig: sig, what: what, detail: d, history: hist}
+	}
+	for _, q := range setup {
+		res := s.Exec(q)
+		if res.Panic != nil {
+			return mm("create:"+res.Panic.Sig(), "panic in CREATE PROCEDURE", map[string]any{"stmt": q, "panic": res.Panic.Value}, nil)
+		}
+		if res.Failed() {
+			return &mismatch{stop: "create-rejected:" + res.ErrClass() + ":" + core.Clip(core.StripVolatile(fmt.Sprint(res.Err)), 60)}
+		}
+	}
+	var lastID int64
+	var history []string
+	for _, c := range calls {
+		args := append([]value{}, c.args...)
+		call := fmt.Sprintf("CALL %s(%s)", top.name, strings.Join(c.argSQL, ", "))
+		for _, q := range c.pre {
+			s.Exec(q)
+			history = append(history, q)
+		}
+		history = append(history, call)
+		w.plog, w.lastSelect, w.steps = nil, nil, 0
+		rc := w.callProc(top, args)
+		res := s.Exec(call)
+		if res.TimedOut {
+			return mm("call-does-not-return", "CALL did not return within the watchdog; the reference interpreter terminates", nil, history)
+		}
+		if res.Panic != nil {
+			return mm(res.Panic.Sig(), "panic", map[string]any{"panic": res.Panic.Value, "stack": core.Clip(res.Panic.Stack, 2500)}, history)
+		}
+		wantErr := ""
+		if rc.kind == "error" {
+			wantErr = rc.err
+		}
+		gotErr := res.ErrClass()
+		outcome := "ok"
+		if wantErr != "" {
+			outcome = "error:" + wantErr
+		}
+		if wantErr != gotErr {
+			return mm(fmt.Sprintf("outcome:reference=%s:engine=%s", orOK(wantErr), orOK(gotErr)), "CALL outcome differs from the reference interpreter",
+				map[string]any{"engine_err": fmt.Sprint(res.Err), "reference_err": wantErr, "reference_log": w.plog}, history)
+		}
+		gotLog, nl, ok := canonPlog(s, lastID)
+		if !ok {
+			return &mismatch{stop: "log-unreadable"}
+		}
+		lastID = nl
+		if !core.SameStrings(gotLog, w.plog) {
+			return mm("log-differs:"+outcome, "the log table differs from the reference interpreter's log",
+				map[string]any{"engine_log": core.ClipStrings(gotLog, 80), "reference_log": core.ClipStrings(w.plog, 80)}, history)
+		}
+		var wantKt []string
+		for k := range w.kt {
+			wantKt = append(wantKt, fmt.Sprint(k))
+		}
+		sortStrings(wantKt)
+		ktRes := s.Exec("SELECT k FROM kt")
+		if !ktRes.Failed() && !core.SameStrings(core.SortedRows(ktRes.Rows), wantKt) {
+			return mm("keyed-table-differs:"+outcome, "table kt differs", map[string]any{"engine": core.SortedRows(ktRes.Rows), "reference": wantKt}, history)
+		}
+		if wantErr == "" {
+			if w.lastSelect != nil {
+				got := []string{}
+				if _, isOK := res.Ok(); !isOK {
+					got = core.CanonRows(res.Rows)
+				}
+				if len(got) != 1 || got[0] != w.lastSelect.intText() {
+					return mm("last-result-set-differs", "the last result set of the CALL differs from the last SELECT the reference executed",
+						map[string]any{"engine_rows": core.ClipStrings(got, 10), "reference_value": w.lastSelect.intText()}, history)
+				}
+			}
+			if len(c.outs) > 0 {
+				ov := s.Exec("SELECT " + strings.Join(c.outs, ", "))
+				var want []string
+				for k, pa := range top.params {
+					if pa.mode != "IN" {
+						want = append(want, args[k].intText())
+					}
+				}
+				if !ov.Failed() && len(ov.Rows) == 1 {
+					got := strings.Split(core.CanonRow(ov.Rows[0]), "|")
+					if !core.SameStrings(got, want) {
+						return mm("out-params-differ", "OUT/INOUT user variables differ after the CALL", map[string]any{"vars": c.outs, "engine": got, "reference": want}, history)
+					}
+				}
+			}
+		}
+		if stats != nil {
+			stats(w, outcome, gotLog, call)
+		}
+	}
+	return nil
+}
+
+// shrink deletes statements from the procedure bodies while the same kind of mismatch persists.
+func shrink(procs []*proc, src [][2]int64, calls []callSpec, sig string) {
+	class := strings.SplitN(sig, ":", 2)[0]
+	budget := 400
+	still := func() bool {
+		budget--
+		m := checkProgram(procs, src, calls, nil)
+		return m != nil && m.stop == "" && strings.SplitN(m.sig, ":", 2)[0] == class
+	}
+	var lists func(s *pstmt) []*[]*pstmt
+	lists = func(s *pstmt) []*[]*pstmt {
+		out := []*[]*pstmt{}
+		if s.body != nil {
+			out = append(out, &s.body)
+		}
+		for k := range s.arms {
+			out = append(out, &s.arms[k])
+		}
+		if s.hasEl {
+			out = append(out, &s.els)
+		}
+		for _, l := range append([]*[]*pstmt{}, out...) {
+			for _, c := range *l {
+				out = append(out, lists(c)...)
+			}
+		}
+		return out
+	}
+	changed := true
+	for changed && budget > 0 {
+		changed = false
+		for _, p := range procs {
+			for _, l := range lists(p.body) {
+				for k := 0; k < len(*l) && budget > 0; k++ {
+					minLen := 1
+					if l == &p.body.body {
+						minLen = 0
+					}
+					if len(*l) <= minLen {
+						break
+					}
+					old := *l
+					cand := append(append([]*pstmt{}, old[:k]...), old[k+1:]...)
+					*l = cand
+					if still() {
+						changed = true
+						k--
+					} else {
+						*l = old
+					}
+				}
+			}
+		}
+	}
+}
+
 func runCase(r *core.Run, i int) {
 	rnd := r.Rand("case", i)
 	feat := map[string]bool{}
@@ -80,166 +268,45 @@ func runCase(r *core.Run, i int) {
 		procs = append(procs, genProc(rnd, k, procs, feat, k < np-1))
 	}
 	top := procs[len(procs)-1]
-
-	e := core.NewEng("d")
-	defer e.Close()
-	s := e.NewSess()
-	setup := []string{ddlPlog, ddlKt, ddlSrc}
-	w := &world{kt: map[int64]bool{}, procs: map[string]*proc{}, handled: map[string]int{}}
+	var src [][2]int64
 	for k := 0; k < rnd.Intn(6); k++ {
-		sid, sval := int64(k*2+1), int64(rnd.Intn(40))
-		setup = append(setup, fmt.Sprintf("INSERT INTO src VALUES (%d, %d)", sid, sval))
-		w.src = append(w.src, [2]int64{sid, sval})
+		src = append(src, [2]int64{int64(k*2 + 1), int64(rnd.Intn(40))})
 	}
-	for _, p := range procs {
-		setup = append(setup, p.createSQL())
-		w.procs[p.name] = p
-	}
-	for _, q := range setup {
-		res := s.Exec(q)
-		if res.Panic != nil {
-			viol(r, "create:"+res.Panic.Sig(), map[string]any{"case": i, "stmt": q, "panic": res.Panic.Value})
-			return
-		}
-		if res.Failed() {
-			// the engine does not accept the definition: nothing to compare
-			r.Inconclusive("create-rejected:" + res.ErrClass() + ":" + core.Clip(core.StripVolatile(fmt.Sprint(res.Err)), 60))
-			return
-		}
-	}
-	var lastID int64
-	var history []string
+	var calls []callSpec
 	for c := 0; c < 3; c++ {
-		// arguments
-		args := make([]value, len(top.params))
-		var argSQL []string
-		var outVars []string
-		var pre []string
+		cs := callSpec{args: make([]value, len(top.params))}
 		for k, pa := range top.params {
 			switch pa.mode {
 			case "IN":
 				if rnd.Intn(8) == 0 {
-					args[k] = vnull
-					argSQL = append(argSQL, "NULL")
+					cs.args[k] = vnull
+					cs.argSQL = append(cs.argSQL, "NULL")
 				} else {
-					args[k] = vint(int64(rnd.Intn(7)) - 1)
-					argSQL = append(argSQL, args[k].intText())
+					cs.args[k] = vint(int64(rnd.Intn(7)) - 1)
+					cs.argSQL = append(cs.argSQL, cs.args[k].intText())
 				}
 			case "INOUT":
-				args[k] = vint(int64(rnd.Intn(7)) - 1)
+				cs.args[k] = vint(int64(rnd.Intn(7)) - 1)
 				uv := fmt.Sprintf("@u%d", k)
-				pre = append(pre, fmt.Sprintf("SET %s = %s", uv, args[k].intText()))
-				argSQL = append(argSQL, uv)
-				outVars = append(outVars, uv)
+				cs.pre = append(cs.pre, fmt.Sprintf("SET %s = %s", uv, cs.args[k].intText()))
+				cs.argSQL = append(cs.argSQL, uv)
+				cs.outs = append(cs.outs, uv)
 			default:
-				args[k] = vnull
+				cs.args[k] = vnull
 				uv := fmt.Sprintf("@u%d", k)
 				// known finding out-param-not-reset-to-null (via=domain): the variable handed to an OUT
 				// parameter is NULL beforehand, so that the body sees NULL either way
-				pre = append(pre, fmt.Sprintf("SET %s = NULL", uv))
-				argSQL = append(argSQL, uv)
-				outVars = append(outVars, uv)
+				cs.pre = append(cs.pre, fmt.Sprintf("SET %s = NULL", uv))
+				cs.argSQL = append(cs.argSQL, uv)
+				cs.outs = append(cs.outs, uv)
 			}
 		}
-		call := fmt.Sprintf("CALL %s(%s)", top.name, strings.Join(argSQL, ", "))
-		for _, q := range pre {
-			s.Exec(q)
-			history = append(history, q)
-		}
-		history = append(history, call)
-
-		// reference
-		w.plog, w.lastSelect, w.steps = nil, nil, 0
-		rc := w.callProc(top, args)
-
-		// engine
-		res := s.Exec(call)
-		wit := func(what string, extra map[string]any) map[string]any {
-			m := map[string]any{"case": i, "what": what, "setup": setup, "history": history, "size": len(strings.Join(setup, ""))}
-			for k, v := range extra {
-				m[k] = v
-			}
-			return m
-		}
-		if res.TimedOut {
-			viol(r, "call-does-not-return", wit("CALL did not return within the watchdog; the reference interpreter terminates", nil))
-			return
-		}
-		if res.Panic != nil {
-			viol(r, res.Panic.Sig(), wit("panic", map[string]any{"panic": res.Panic.Value, "stack": core.Clip(res.Panic.Stack, 2500)}))
-			return
-		}
+		calls = append(calls, cs)
+	}
+	ncall := 0
+	m := checkProgram(procs, src, calls, func(w *world, outcome string, gotLog []string, call string) {
 		r.Eval(1)
-		wantErr := ""
-		if rc.kind == "error" {
-			wantErr = rc.err
-		}
-		gotErr := res.ErrClass()
-		outcome := "ok"
-		if wantErr != "" {
-			outcome = "error:" + wantErr
-		}
-		if wantErr != gotErr {
-			viol(r, fmt.Sprintf("outcome:reference=%s:engine=%s", orOK(wantErr), orOK(gotErr)), wit("CALL outcome differs from the reference interpreter",
-				map[string]any{"engine_err": fmt.Sprint(res.Err), "reference_err": wantErr, "reference_log": w.plog}))
-			return
-		}
-		// log table
-		gotLog, nl, ok := canonPlog(s, lastID)
-		if !ok {
-			r.Inconclusive("log-unreadable")
-			return
-		}
-		lastID = nl
-		if !core.SameStrings(gotLog, w.plog) {
-			viol(r, fmt.Sprintf("log-differs:%s", outcome), wit("the log table differs from the reference interpreter's log",
-				map[string]any{"engine_log": core.ClipStrings(gotLog, 80), "reference_log": core.ClipStrings(w.plog, 80)}))
-			return
-		}
-		// keyed table
-		var wantKt []string
-		for k := range w.kt {
-			wantKt = append(wantKt, fmt.Sprint(k))
-		}
-		sortStrings(wantKt)
-		ktRes := s.Exec("SELECT k FROM kt")
-		if !ktRes.Failed() && !core.SameStrings(core.SortedRows(ktRes.Rows), wantKt) {
-			viol(r, "keyed-table-differs:"+outcome, wit("table kt differs", map[string]any{"engine": core.SortedRows(ktRes.Rows), "reference": wantKt}))
-			return
-		}
-		if wantErr == "" {
-			// last result set
-			if w.lastSelect != nil {
-				got := []string{}
-				if _, isOK := res.Ok(); !isOK {
-					got = core.CanonRows(res.Rows)
-				}
-				if len(got) != 1 || got[0] != w.lastSelect.intText() {
-					viol(r, "last-result-set-differs", wit("the last result set of the CALL differs from the last SELECT the reference executed",
-						map[string]any{"engine_rows": core.ClipStrings(got, 10), "reference_value": w.lastSelect.intText()}))
-					return
-				}
-				r.Count("last-result-set-compared", 1)
-			}
-			// OUT / INOUT
-			if len(outVars) > 0 {
-				ov := s.Exec("SELECT " + strings.Join(outVars, ", "))
-				var want []string
-				for k, pa := range top.params {
-					if pa.mode != "IN" {
-						want = append(want, args[k].intText())
-					}
-				}
-				if !ov.Failed() && len(ov.Rows) == 1 {
-					got := strings.Split(core.CanonRow(ov.Rows[0]), "|")
-					if !core.SameStrings(got, want) {
-						viol(r, "out-params-differ", wit("OUT/INOUT user variables differ after the CALL", map[string]any{"vars": outVars, "engine": got, "reference": want}))
-						return
-					}
-					r.Count("out-params-compared", 1)
-				}
-			}
-		}
+		ncall++
 		r.Count("outcome."+outcome, 1)
 		for h, n := range w.handled {
 			r.Count("handled."+h, int64(n))
@@ -248,14 +315,41 @@ func runCase(r *core.Run, i int) {
 		if w.maxLoop >= 3 {
 			r.Count("loop-iterations>=3", 1)
 		}
-		r.Distinct(featKey(feat) + "|" + outcome)
-		if i%90 == 0 && c == 0 {
-			r.Sample(map[string]any{"procedure": core.Clip(top.createSQL(), 700), "call": call, "outcome": outcome, "log": core.ClipStrings(gotLog, 12), "out": outVars})
+		if w.lastSelect != nil && outcome == "ok" {
+			r.Count("last-result-set-compared", 1)
 		}
-	}
+		r.Distinct(featKey(feat) + "|" + outcome)
+		if i%90 == 0 && ncall == 1 {
+			r.Sample(map[string]any{"procedure": core.Clip(top.createSQL(), 700), "call": call, "outcome": outcome, "log": core.ClipStrings(gotLog, 12)})
+		}
+	})
 	for f := range feat {
 		r.Count("feature."+f, 1)
 	}
+	if m == nil {
+		return
+	}
+	if m.stop != "" {
+		r.Inconclusive(m.stop)
+		return
+	}
+	r.Eval(1)
+	wit := map[string]any{"case": i, "what": m.what, "history": m.history}
+	for k, v := range m.detail {
+		wit[k] = v
+	}
+	if m.sig != "call-does-not-return" {
+		// delta-debug the procedures so that the witness is small
+		shrink(procs, src, calls, m.sig)
+		if m2 := checkProgram(procs, src, calls, nil); m2 != nil && m2.stop == "" {
+			min := map[string]any{"signature": m2.sig, "history": m2.history}
+			for k, v := range m2.detail {
+				min[k] = v
+			}
+			wit["minimised"] = min
+		}
+	}
+	viol(r, m.sig, wit)
 }
 
 // viol reports a violation; with C24_DUMP=<dir> every witness is also written there (triage aid).
@@ -417,6 +511,15 @@ func pinned(r *core.Run) {
 		e, s := run(ddlPlog, "CREATE PROCEDURE pin(IN a INT) BEGIN SET a = 1; END", "CREATE PROCEDURE pout() BEGIN DECLARE x INT DEFAULT 3; CALL pin(x); INSERT INTO plog (v) VALUES (x); END", "CALL pout()")
 		got, _, _ := canonPlog(s, 0)
 		r.Pinned("in-param-assignment-leaks-to-caller", fmt.Sprintf("pin(IN a) does SET a = 1; caller: x = 3; CALL pin(x); log x — logged %v, expected ['3']", got), !core.SameStrings(got, []string{"'3'"}), map[string]any{"log": got})
+		e.Close()
+	}
+	// INOUT/OUT parameters of a callee keep their value from the previous activation
+	{
+		e, s := run(ddlPlog, "CREATE PROCEDURE pc(INOUT a INT) BEGIN INSERT INTO plog (v) VALUES (a); SET a = 4; END",
+			"CREATE PROCEDURE pp() BEGIN DECLARE x INT DEFAULT 0; CALL pc(x); END", "CALL pp()", "CALL pp()")
+		got, _, _ := canonPlog(s, 0)
+		want := []string{"'0'", "'0'"}
+		r.Pinned("nested-call-param-state-persists", fmt.Sprintf("pp() = DECLARE x INT DEFAULT 0; CALL pc(x) with pc(INOUT a) logging a then SET a = 4; two CALL pp() log %v, expected %v", got, want), !core.SameStrings(got, want), map[string]any{"log": got})
 		e.Close()
 	}
 }
